@@ -157,7 +157,8 @@ fn run_l(ttl: u32, sel: &[usize], reset_after: usize) -> CaseResult {
 // ---------------------------------------------------------------- S: refresh schedule
 
 /// answers: bitmask of marks (0..4) at which the refresh query is answered with a fresh copy.
-fn run_refresh(ttl: u32, answer_mask: u32, trace: bool) -> CaseResult {
+fn run_refresh(ttl: u32, answer_mask: u32, variant: u64, trace: bool) -> CaseResult {
+    // variant 1: the host has two addresses, and something unrelated wakes the daemon between the marks
     let mut res = CaseResult::default();
     let mut w = World::one(lay_v4());
     w.trace = trace;
@@ -167,8 +168,13 @@ fn run_refresh(ttl: u32, answer_mask: u32, trace: bool) -> CaseResult {
     let ch = w.add_browse(0, rx);
     w.poke(0);
     w.advance(100);
-    let i = Inst::simple("inst", "h", [10, 0, 0, 9]);
+    let mut i = Inst::simple("inst", "h", [10, 0, 0, 9]);
+    if variant == 1 {
+        i.v4.push([10, 0, 0, 10]);
+        i.v6.push("fd00::9".parse().unwrap());
+    }
     let life = ttl as u64 * 1000;
+    let unrelated = build(&response(vec![ptr(&n("_z._udp.local"), &n("other._z._udp.local"), 120)]));
     let mut arrival = w.now;
     w.deliver(0, IF0, PEER0, build(&response(i.all(ttl))));
     // walk the marks; after an answered mark the schedule restarts
@@ -179,6 +185,12 @@ fn run_refresh(ttl: u32, answer_mask: u32, trace: bool) -> CaseResult {
             let m = arrival + life * pct / 100;
             w.run_until(m);
             expected_refresh_times.push((m, ttl > 1));
+            if variant == 1 && !(answer_mask & (1 << k) != 0 && answered_once < 2) {
+                // an unrelated packet two hundredths of the life later: between this mark and the next
+                w.run_until(m + life * 2 / 100);
+                w.deliver(0, IF0, PEER0, unrelated.clone());
+                res.count("wakeups_between_marks", 1);
+            }
             if answer_mask & (1 << k) != 0 && answered_once < 2 {
                 answered_once += 1;
                 // the responder answers the refresh query with fresh copies
@@ -363,10 +375,10 @@ pub fn check(tier: &str) -> i32 {
     let st = s_ttls.clone();
     let refresh = FnPart {
         name: "S-refresh-schedule".into(),
-        rule: "browse; full record set with TTL t; the refresh query at each of the four marks is answered with fresh copies or not (all 16 patterns, at most two answers honoured); queries on the wire and the removal event compared with the marks".into(),
-        n: ns * 16,
-        describe: Box::new(move |i| format!("ttl {} answered-marks mask {:#06b}", st[(i % ns) as usize], i / ns)),
-        run: Box::new(move |i, tr| run_refresh(s_ttls[(i % ns) as usize], (i / ns) as u32, tr)),
+        rule: "browse; full record set with TTL t; the refresh query at each of the four marks is answered with fresh copies or not (all 16 patterns, at most two answers honoured) x (one address, undisturbed | three addresses of the host and an unrelated packet waking the daemon between the marks); queries on the wire and the removal event compared with the marks".into(),
+        n: ns * 32,
+        describe: Box::new(move |i| format!("ttl {} answered-marks mask {:#06b} variant {}", st[(i % ns) as usize], (i / ns) % 16, i / ns / 16)),
+        run: Box::new(move |i, tr| run_refresh(s_ttls[(i % ns) as usize], ((i / ns) % 16) as u32, i / ns / 16, tr)),
     };
     rep.run_part(&refresh, Duration::from_secs(300));
 
